@@ -28,8 +28,15 @@ pub fn gen_cfg(rng: &mut Rng) -> Cfg {
         Protocol::Tcp => if rng.chance(1, 2) { (MultipathStrategy::Classic, PortDirection::new_fixed_src(sp)) } else { (MultipathStrategy::Classic, PortDirection::new_fixed_dest(dp)) },
     };
     let first_ttl = *rng.pick(&[1u8, 1, 1, 2, 3, 5, 10, 30]);
-    let max_ttl = first_ttl.saturating_add(*rng.pick(&[0u8, 1, 3, 8, 20, 40])).min(254);
-    let max_inflight = *rng.pick(&[1u8, 2, 3, 5, 24, 24, 100, 255]);
+    let mut max_ttl = first_ttl.saturating_add(*rng.pick(&[0u8, 1, 3, 8, 20, 40])).min(254);
+    let mut max_inflight = *rng.pick(&[1u8, 2, 3, 5, 24, 24, 100, 255]);
+    // configurations the library builder accepts although no probe can ever be sent (the command line refuses them): every round
+    // is then an empty round that still has to end by the timing policy, be published and counted
+    match rng.below(40) {
+        0 => max_ttl = first_ttl.saturating_sub(1 + rng.below(3) as u8),
+        1 => max_inflight = 0,
+        _ => {}
+    }
     let initial_sequence = *rng.pick(&[0u16, 1, 33434, 33434, 33434, 63999, 64000, 64257, 64258, 64400, 64510, 64511]);
     let ms = 1_000_000u64;
     let min_ns = *rng.pick(&[0, ms, 5 * ms, 20 * ms]);
@@ -161,7 +168,7 @@ pub fn run(args: &Args, out: &mut Out) {
         let knobs = match if cfg.proto == Protocol::Tcp { rng.below(5) } else { rng.below(4) } {
             4 => Knobs { p_inuse_burst: 200, inuse_burst_max: *rng.pick(&[2u64, 5, 9, 20, 40, 600]), p_send_failed: 10, ..Knobs::default() },
             0 => Knobs::default(),
-            1 => Knobs { p_inject_foreign: 100, p_inject_neversent: 100, ..Knobs::default() },
+            1 => Knobs { p_inject_foreign: 100, p_inject_neversent: 100, p_clock_stepped_back: 30, ..Knobs::default() },
             2 => Knobs { p_send_failed: 60, p_send_inuse: if cfg.proto == Protocol::Tcp { 150 } else { 5 }, ..Knobs::default() },
             _ => Knobs { p_send_failed: 20, p_send_inuse: if cfg.proto == Protocol::Tcp { 50 } else { 0 }, p_send_fatal: 5, p_recv_fatal: 5,
                          p_inject_foreign: 30, p_inject_neversent: 30, p_ecmp_flip: 50, ..Knobs::default() },
